@@ -1,5 +1,5 @@
 (* C02 proofs: the auto-escaping invariant of the reference interpreter run with esc = true. *)
-From MJ Require Import Common.Base Lang.Syntax Lang.Meta Lang.Interp C02.Spec C02.Out.
+From MJ Require Import Common.Base Lang.Syntax Lang.Meta Lang.Interp Lang.Facts C02.Spec C02.Out.
 
 (* ---- clean ---- *)
 Lemma clean_app a b : clean (a ++ b) = clean a && clean b.
@@ -64,12 +64,69 @@ Qed.
 (* ---- values ---- *)
 Lemma good_render v : good_value v = true -> clean (render_value true v) = true.
 Proof.
-  destruct v as [| | |b|z|sf s|l|mc cl|i n|g]; cbn [render_value]; try (intros _; apply clean_html_escape).
+  destruct v as [| | |b|z|sf s|l|kvs|mc cl|i n|g]; cbn [render_value]; try (intros _; apply clean_html_escape).
   destruct sf; [cbn [good_value]; auto|intros _; apply clean_html_escape].
 Qed.
 
 Lemma forallb_In {A} (f : A -> bool) l x : forallb f l = true -> In x l -> f x = true.
 Proof. intros H. rewrite forallb_forall in H. auto. Qed.
+
+(* ---- the boolean invariant as a predicate, to use the shared lemmas of Lang/Facts.v ---- *)
+Definition gv (v : value) : Prop := good_value v = true.
+
+Lemma good_list_Forall l : forallb good_value l = true <-> Forall gv l.
+Proof. rewrite forallb_forall, Forall_forall. reflexivity. Qed.
+
+Lemma good_map_unfold m :
+  good_value (VMap m) = forallb (fun p => good_value (fst p) && good_value (snd p)) m.
+Proof. reflexivity. Qed.
+
+Lemma good_map_entries m : good_value (VMap m) = true <-> entries_all gv m.
+Proof.
+  rewrite good_map_unfold. unfold entries_all, gv. rewrite forallb_forall, Forall_forall.
+  split; intros H p Hp; specialize (H p Hp); apply andb_true_iff; exact H.
+Qed.
+
+Lemma good_map_keys m : good_value (VMap m) = true -> forallb good_value (map fst m) = true.
+Proof. intros H. apply good_list_Forall. apply map_keys_all. now apply good_map_entries. Qed.
+
+Lemma good_map_items m : good_value (VMap m) = true ->
+  forallb good_value (map (fun '(k, x) => VList [k; x]) m) = true.
+Proof.
+  rewrite good_map_unfold. induction m as [|[k x] r IH]; cbn [map forallb fst snd]; [reflexivity|].
+  intros H. apply andb_true_iff in H as [H1 H2]. apply andb_true_iff in H1 as [Hk Hx].
+  change (good_value (VList [k; x])) with (good_value k && (good_value x && true)).
+  rewrite Hk, Hx. cbn [andb]. auto.
+Qed.
+
+Lemma map_of_pairs_good ps : entries_all gv ps -> good_value (VMap (map_of_pairs ps)) = true.
+Proof. intros H. apply good_map_entries. now apply map_of_pairs_all. Qed.
+
+Lemma loop_attr_good i n a v : loop_attr i n a = Some v -> good_value v = true.
+Proof.
+  unfold loop_attr. repeat match goal with |- context [if ?c then _ else _] => destruct c end; intros H; inversion H; reflexivity.
+Qed.
+
+Lemma get_item_opt_good x k v : good_value x = true -> get_item_opt x k = Some v -> good_value v = true.
+Proof.
+  intros Hx. apply (get_item_opt_all gv).
+  - intros l ->. now apply good_list_Forall.
+  - intros m ->. now apply good_map_entries.
+Qed.
+
+Lemma get_attr_opt_good x a v : good_value x = true -> get_attr_opt x a = Some v -> good_value v = true.
+Proof.
+  intros Hx. apply (get_attr_opt_all gv).
+  - intros i n w _. apply loop_attr_good.
+  - intros m ->. now apply good_map_entries.
+Qed.
+
+Lemma unpack_items_good x l : good_value x = true -> unpack_items x = Some l -> forallb good_value l = true.
+Proof.
+  intros Hx H. apply good_list_Forall. revert H. apply (unpack_items_all gv).
+  - intros l' ->. now apply good_list_Forall.
+  - intros m ->. now apply good_map_entries.
+Qed.
 
 Lemma do_bin_good op a b r : do_bin op a b = Ok r -> good_value r = true.
 Proof.
@@ -81,11 +138,6 @@ Qed.
 Lemma idx_list_good l z v : forallb good_value l = true -> idx_list l z = Some v -> good_value v = true.
 Proof.
   unfold idx_list. intros Hl. destruct (_ && _); [|discriminate]. intros H. apply nth_error_In in H. eapply forallb_In; eauto.
-Qed.
-
-Lemma loop_attr_good i n a v : loop_attr i n a = Some v -> good_value v = true.
-Proof.
-  unfold loop_attr. repeat match goal with |- context [if ?c then _ else _] => destruct c end; intros H; inversion H; reflexivity.
 Qed.
 
 Lemma range_list_good f : forall i n, forallb good_value (range_list f i n) = true.
@@ -166,7 +218,7 @@ Qed.
 Lemma str_input_good m v i : str_input m v = Ok i -> good_value v = true -> clean (fmt_in i) = true /\ (fst i = true -> clean (snd i) = true).
 Proof.
   unfold str_input. destruct (u_strictish m && is_strict_undef v); [discriminate|]. intros H Hv. inversion H; subst. clear H.
-  unfold fmt_in. destruct v as [| | |b|z|sf t|l|mc cl|j n|g]; cbn [fst snd]; try (split; [apply clean_html_escape|discriminate]).
+  unfold fmt_in. destruct v as [| | |b|z|sf t|l|kvs|mc cl|j n|g]; cbn [fst snd]; try (split; [apply clean_html_escape|discriminate]).
   destruct sf; cbn [good_value] in Hv; split; auto; [apply clean_html_escape|discriminate].
 Qed.
 
@@ -180,19 +232,23 @@ Proof.
                                destruct args as [|a ?]; [reflexivity|]. cbn [forallb] in Ha. apply andb_true_iff in Ha as [Ha _]. exact Ha. }
   destruct (f =? F_abs). { destruct v; intros H; inversion H; reflexivity. }
   destruct (f =? F_string). { destruct v; try (intros H; inversion H; subst; auto; fail). destruct (u_strictish m); intros H; inversion H; reflexivity. }
-  destruct (f =? F_escape). { destruct v as [| | |b|z|sf s|l|mc cl|i n|g]; try (intros H; injection H as <-; cbn [good_value]; first [apply clean_html_escape | reflexivity]).
+  destruct (f =? F_escape). { destruct v as [| | |b|z|sf s|l|kvs|mc cl|i n|g]; try (intros H; injection H as <-; cbn [good_value]; first [apply clean_html_escape | reflexivity]).
                               destruct sf; intros H; injection H as <-; auto. cbn [good_value]. apply clean_html_escape. }
   destruct ((f =? F_upper) || (f =? F_lower) || (f =? F_trim) || (f =? F_capitalize)).
   { intros H. apply bind_ok in H as (u & _ & H). inversion H; subst. clear H.
-    destruct v as [| | |b|z|sf s|l|mc cl|i n|g]; try reflexivity. destruct sf; [|reflexivity].
+    destruct v as [| | |b|z|sf s|l|kvs|mc cl|i n|g]; try reflexivity. destruct sf; [|reflexivity].
     cbn [good_value show] in *. destruct (f =? F_upper); [apply clean_map; auto using meta_upper|].
     destruct (f =? F_lower); [apply clean_map; auto using meta_lower|].
     destruct (f =? F_trim); [now apply clean_trim|]. now apply clean_capitalize. }
   destruct (f =? F_first).
-  { destruct v as [| | |b|z|sf s|l|mc cl|i n|g]; try discriminate. destruct l as [|x l]; intros H; inversion H; subst; [reflexivity|].
-    cbn [good_value forallb] in Hv. apply andb_true_iff in Hv as [Hv _]. exact Hv. }
+  { destruct v as [| | |b|z|sf s|l|kvs|mc cl|i n|g]; try discriminate.
+    - destruct l as [|x l]; intros H; inversion H; subst; [reflexivity|].
+      cbn [good_value forallb] in Hv. apply andb_true_iff in Hv as [Hv _]. exact Hv.
+    - (* the first key of a map *)
+      destruct kvs as [|[k x] kvs]; intros H; inversion H; subst; [reflexivity|].
+      apply good_map_keys in Hv. cbn [map fst forallb] in Hv. apply andb_true_iff in Hv as [Hv _]. exact Hv. }
   destruct (f =? F_last).
-  { destruct v as [| | |b|z|sf s|l|mc cl|i n|g]; try discriminate. intros H; inversion H; subst. cbn [good_value] in Hv.
+  { destruct v as [| | |b|z|sf s|l|kvs|mc cl|i n|g]; try discriminate. intros H; inversion H; subst. cbn [good_value] in Hv.
     destruct (rev l) as [|x r'] eqn:E; [reflexivity|]. apply (forallb_In good_value l x Hv). apply in_rev. rewrite E. now left. }
   destruct (f =? F_replace).
   { intros H. apply bind_ok in H as (vi & Ev & H). destruct args as [|a1 rest]; [discriminate|].
@@ -206,11 +262,13 @@ Proof.
   { assert (Hitems : forall items, match v with
               | VList l => Ok l
               | VStr _ s => Ok (map (fun ch => VStr false [ch]) s)
+              | VMap kvs => Ok (map fst kvs)
               | VUndef | VSilent | VNone => Ok []
               | _ => Err E_InvalidOperation
               end = Ok items -> forallb good_value items = true).
-    { intros items. destruct v as [| | |b|z|sf t|l|mc cl|j n|g]; intros E; inversion E; subst; auto.
-      clear. induction t; cbn; auto. }
+    { intros items. destruct v as [| | |b|z|sf t|l|kvs|mc cl|j n|g]; intros E; inversion E; subst; auto.
+      - clear. induction t; cbn; auto.
+      - now apply good_map_keys. }
     assert (Hrend : forall items, forallb good_value items = true -> forallb clean (map (render_value true) items) = true).
     { induction items as [|x r' IH]; cbn [map forallb]; auto. intros E. apply andb_true_iff in E as [E1 E2]. now rewrite good_render, IH. }
     assert (Hj : forall a, good_value a = true ->
@@ -219,7 +277,7 @@ Proof.
                         | VStr b s => Some (b, s)
                         | _ => Some (false, show a)
                         end = Some j -> clean (fmt_in j) = true /\ (fst j = true -> clean (snd j) = true)).
-    { intros a Hga j. unfold fmt_in. destruct a as [| | |b|z|sf t|l|mc cl|i n|g]; intros E; inversion E; subst; cbn [fst snd];
+    { intros a Hga j. unfold fmt_in. destruct a as [| | |b|z|sf t|l|kvs|mc cl|i n|g]; intros E; inversion E; subst; cbn [fst snd];
         try (split; [apply clean_html_escape|discriminate]).
       destruct sf; cbn [good_value] in Hga; split; auto; [apply clean_html_escape|discriminate]. }
     destruct args as [|a [|a' rest]]; try discriminate.
@@ -238,18 +296,22 @@ Proof.
         * destruct (existsb is_safe_v items); inversion H; subst; [|reflexivity]. cbn [good_value]. apply clean_join_with; auto.
       + destruct (existsb is_safe_v items); inversion H; subst; [|reflexivity]. cbn [good_value]. apply clean_join_with; [reflexivity|auto]. }
   destruct (f =? F_format).
-  { destruct v as [| | |b|z|sf t|l|mc cl|j n|g]; try discriminate.
+  { destruct v as [| | |b|z|sf t|l|kvs|mc cl|j n|g]; try discriminate.
     destruct (printf_s _ t args) as [r0|] eqn:Ep; [|discriminate]. intros H; inversion H; subst.
     destruct sf; [|reflexivity]. cbn [good_value] in *. eapply clean_printf; [exact Hv| |exact Ep].
     intros a Hin. pose proof (forallb_In _ _ _ Ha Hin) as Hga.
-    destruct a as [| | |b|z|sf t'|l|mc cl|j n|g]; try apply clean_html_escape.
+    destruct a as [| | |b|z|sf t'|l|kvs|mc cl|j n|g]; try apply clean_html_escape.
     - destruct b; reflexivity.
     - apply clean_show_int.
     - destruct sf; [exact Hga|apply clean_html_escape]. }
   destruct (f =? F_list).
-  { destruct v as [| | |b|z|sf t|l|mc cl|j n|g]; try discriminate; try (intros H; inversion H; subst; auto; fail).
+  { destruct v as [| | |b|z|sf t|l|kvs|mc cl|j n|g]; try discriminate; try (intros H; inversion H; subst; auto; fail).
     - destruct (u_strictish m); intros H; inversion H; reflexivity.
-    - intros H; inversion H; subst. cbn [good_value]. clear. induction t; cbn; auto. }
+    - intros H; inversion H; subst. cbn [good_value]. clear. induction t; cbn; auto.
+    - intros H; inversion H; subst. change (forallb good_value (map fst kvs) = true). now apply good_map_keys. }
+  destruct (f =? F_items).
+  { destruct v as [| | |b|z|sf t|l|kvs|mc cl|j n|g]; try discriminate. intros H; inversion H; subst.
+    change (forallb good_value (map (fun '(k, x) => VList [k; x]) kvs) = true). now apply good_map_items. }
   discriminate.
 Qed.
 (* ---- the invariant on states ---- *)
@@ -398,6 +460,23 @@ Proof.
     unfold good_binds in *. cbn [forallb snd]. now rewrite Hv, Hvs.
 Qed.
 
+Lemma map_eval_pairs_good ev : ev_good ev -> forall l s kvs s', good_st s ->
+  forallb (fun p => expr_ok (fst p) && expr_ok (snd p)) l = true ->
+  map_eval_pairs ev s l = Ok (kvs, s') -> entries_all gv kvs /\ good_st s'.
+Proof.
+  intros Hev. induction l as [|[ke ve] r IH]; intros s kvs s' Hs Hl H.
+  - cbn in H. inversion H; subst. split; [constructor|assumption].
+  - change (map_eval_pairs ev s ((ke, ve) :: r)) with
+      (bind (ev s ke) (fun '(k, s1) => bind (ev s1 ve) (fun '(v, s2) =>
+       bind (map_eval_pairs ev s2 r) (fun '(kvs, s3) => Ok ((k, v) :: kvs, s3))))) in H.
+    cbn [forallb fst snd] in Hl. apply andb_true_iff in Hl as [Hkv Hr]. apply andb_true_iff in Hkv as [Hke Hve].
+    apply bind_ok in H as ([k s1] & E1 & H). apply bind_ok in H as ([v s2] & E2 & H).
+    apply bind_ok in H as ([kvs1 s3] & E3 & H). inversion H; subst.
+    destruct (Hev _ _ _ _ Hs Hke E1) as [Hk Hs1]. destruct (Hev _ _ _ _ Hs1 Hve E2) as [Hv Hs2].
+    destruct (IH _ _ _ Hs2 Hr E3) as [Hkvs Hs3]. split; [|assumption].
+    apply entries_all_cons; assumption.
+Qed.
+
 Lemma cmp_chain_good m ev : ev_good ev -> forall l left s v s', good_st s -> forallb (fun p => expr_ok (snd p)) l = true ->
   cmp_chain m ev left s l = Ok (v, s') -> good_value v = true /\ good_st s'.
 Proof.
@@ -473,11 +552,11 @@ Qed.
 
 Lemma bind_target_good tgt s item s' : good_st s -> good_value item = true -> bind_target tgt s item = Ok s' -> good_st s'.
 Proof.
-  intros Hs Hi. unfold bind_target. destruct tgt as [x|x y].
-  - intros H; inversion H; subst. now apply store_good.
-  - destruct item as [| | |b|z|sf t|l|mc cl|i n|g]; try discriminate.
-    destruct l as [|a [|b [|? ?]]]; try discriminate. intros H; inversion H; subst.
-    cbn [good_value forallb] in Hi. apply andb_true_iff in Hi as [Ha Hb]. apply andb_true_iff in Hb as [Hb _].
+  intros Hs Hi. destruct tgt as [x|x y].
+  - cbn [bind_target]. intros H; inversion H; subst. now apply store_good.
+  - intros H. apply bind_target_pair_inv in H as (a & b & Hu & ->).
+    pose proof (unpack_items_good _ _ Hi Hu) as Hab.
+    cbn [forallb] in Hab. apply andb_true_iff in Hab as [Ha Hb]. apply andb_true_iff in Hb as [Hb _].
     apply store_good; auto. apply store_good; auto.
 Qed.
 
@@ -528,12 +607,14 @@ Qed.
 Lemma with_binds_good ev : ev_good ev -> forall l s s', good_st s -> forallb (fun p => expr_ok (snd p)) l = true ->
   with_binds ev s l = Ok s' -> good_st s'.
 Proof.
-  intros Hev. induction l as [|[x e] r IH]; intros s s' Hs Hl H.
+  intros Hev. induction l as [|[t e] r IH]; intros s s' Hs Hl H.
   - cbn in H. inversion H; subst; auto.
-  - change (with_binds ev s ((x, e) :: r)) with (bind (ev s e) (fun '(v, s1) => with_binds ev (store s1 x v) r)) in H.
+  - change (with_binds ev s ((t, e) :: r)) with
+      (bind (ev s e) (fun '(v, s1) => bind (bind_target t s1 v) (fun s2 => with_binds ev s2 r))) in H.
     cbn [forallb snd] in Hl. apply andb_true_iff in Hl as [He Hr].
     apply bind_ok in H as ([v s1] & E1 & H). destruct (Hev _ _ _ _ Hs He E1) as [Hv Hs1].
-    eapply IH; [|exact Hr|exact H]. now apply store_good.
+    apply bind_ok in H as (s2 & E2 & H).
+    eapply IH; [|exact Hr|exact H]. eapply bind_target_good; eauto.
 Qed.
 (* ---- the interpreter keeps the invariant (esc = true throughout: no SAutoEscape in the fragment) ---- *)
 Section Main.
@@ -551,12 +632,15 @@ Proof. destruct m, b; cbn; intros H; inversion H; reflexivity. Qed.
 
 Lemma eval_step fuel : ev_good (eval c fuel true) -> call_good fuel -> ev_good (eval c (S fuel) true).
 Proof.
-  intros Hev Hcall s e v s' Hs He H. destruct e as [l|x|items|a|a|op a b|a rest|a b|a b|cnd t f|a i|a attr|f a args|t a args neg|f args kwargs]; simpl in H.
+  intros Hev Hcall s e v s' Hs He H. destruct e as [l|x|items|pairs|a|a|op a b|a rest|a b|a b|cnd t f|a i|a attr|f a args|t a args neg|f args kwargs]; simpl in H.
   - destruct l; inversion H; subst; auto.
   - destruct (lookup c s x) as [w s1] eqn:El. inversion H; subst. destruct (lookup_good _ _ _ _ _ Hroot Hs El) as [Hs1 Hw].
     split; auto. destruct w; [now apply Hw|reflexivity].
   - cbn [expr_ok] in He. apply bind_ok in H as ([vs s1] & E1 & H). inversion H; subst.
     destruct (map_eval_good _ Hev _ _ _ _ Hs He E1). auto.
+  - cbn [expr_ok] in He. apply bind_ok in H as ([kvs s1] & E1 & H). inversion H; subst.
+    destruct (map_eval_pairs_good _ Hev _ _ _ _ Hs He E1) as [Hkvs Hs1]. split; [|assumption].
+    now apply map_of_pairs_good.
   - cbn [expr_ok] in He. apply bind_ok in H as ([w s1] & E1 & H). destruct (Hev _ _ _ _ Hs He E1) as [_ Hs1].
     destruct w; try discriminate. inversion H; subst. auto.
   - cbn [expr_ok] in He. apply bind_ok in H as ([w s1] & E1 & H). destruct (Hev _ _ _ _ Hs He E1) as [_ Hs1].
@@ -578,12 +662,12 @@ Proof.
   - cbn [expr_ok] in He. apply andb_true_iff in He as [Ha Hi].
     apply bind_ok in H as ([x s1] & E1 & H). apply bind_ok in H as ([k s2] & E2 & H).
     destruct (Hev _ _ _ _ Hs Ha E1) as [Hx Hs1]. destruct (Hev _ _ _ _ Hs1 Hi E2) as [Hk Hs2].
-    destruct (match x with VList l => match k with VInt z => idx_list l z | _ => None end | _ => None end) as [w|] eqn:E3.
-    + inversion H; subst. split; auto. destruct x; try discriminate. destruct k; try discriminate. eapply idx_list_good; eauto.
+    destruct (get_item_opt x k) as [w|] eqn:E3.
+    + inversion H; subst. split; [exact (get_item_opt_good _ _ _ Hx E3)|assumption].
     + apply bind_ok in H as (w & E4 & H). inversion H; subst. split; auto. eapply handle_undefined_good; eauto.
   - cbn [expr_ok] in He. apply bind_ok in H as ([x s1] & E1 & H). destruct (Hev _ _ _ _ Hs He E1) as [Hx Hs1].
-    destruct (match x with VLoop i n => loop_attr i n attr | _ => None end) as [w|] eqn:E3.
-    + inversion H; subst. split; auto. destruct x; try discriminate. eapply loop_attr_good; eauto.
+    destruct (get_attr_opt x attr) as [w|] eqn:E3.
+    + inversion H; subst. split; [exact (get_attr_opt_good _ _ _ Hx E3)|assumption].
     + apply bind_ok in H as (w & E4 & H). inversion H; subst. split; auto. eapply handle_undefined_good; eauto.
   - cbn [expr_ok] in He. apply andb_true_iff in He as [He Hargs]. apply andb_true_iff in He as [Hf Ha]. apply negb_true_iff in Hf.
     apply bind_ok in H as ([x s1] & E1 & H). apply bind_ok in H as ([vs s2] & E2 & H). apply bind_ok in H as (r & E3 & H). inversion H; subst.
@@ -597,9 +681,9 @@ Proof.
     destruct (map_eval_good _ Hev _ _ _ _ Hs Hargs E1) as [Hvs Hs1]. destruct (map_eval_kw_good _ Hev _ _ _ _ Hs1 Hkw E2) as [Hkvs Hs2].
     destruct (lookup c s2 f) as [fv s3] eqn:El. destruct (lookup_good _ _ _ _ _ Hroot Hs2 El) as [Hs3 Hfv].
     destruct fv as [fv|]; [|discriminate]. specialize (Hfv _ eq_refl).
-    destruct fv as [| | |b|z|sf t|l|mc cl|i n|g]; try discriminate.
+    destruct fv as [| | |b|z|sf t|l|kvs0|mc cl|i n|g]; try discriminate.
     + eapply Hcall; eauto.
-    + destruct (g =? N_range); [|discriminate]. destruct vs as [|[| | |b|z|sf t|l|mc cl|i n|g'] [|? ?]]; try discriminate.
+    + destruct (g =? N_range); [|discriminate]. destruct vs as [|[| | |b|z|sf t|l|kvs0|mc cl|i n|g'] [|? ?]]; try discriminate.
       destruct kvs; [|discriminate]. inversion H; subst. split; auto. cbn [good_value]. apply range_list_good.
 Qed.
 
@@ -637,10 +721,12 @@ Proof.
     apply bind_ok in H as ([iv s1] & E1 & H). destruct (Hev _ _ _ _ Hs Hiter E1) as [Hiv Hs1].
     apply bind_ok in H as (items & E2 & H).
     assert (Hitems : forallb good_value items = true).
-    { destruct iv as [| | |b|z|sf t|l|mc cl|i n|g]; try discriminate; try (inversion E2; subst; auto; fail).
+    { destruct iv as [| | |b|z|sf t|l|kvs|mc cl|i n|g]; try discriminate; try (inversion E2; subst; auto; fail).
       - destruct (u_strictish (c_mode c)); inversion E2; reflexivity.
       - (* the characters of a string are unsafe one-character strings *)
-        inversion E2; subst. clear. induction t; cbn; auto. }
+        inversion E2; subst. clear. induction t; cbn; auto.
+      - (* the keys of a map *)
+        inversion E2; subst. now apply good_map_keys. }
     apply bind_ok in H as ([items2 s2] & E3 & H).
     assert (Hi2 : forallb good_value items2 = true /\ good_st s2).
     { destruct flt as [fe|]; [eapply filter_items_good; eauto|inversion E3; subst; auto]. }
@@ -649,7 +735,8 @@ Proof.
     { eapply loop_items_good; [exact Hex|exact Hbody| |exact Hi2|exact E4]. apply push_frame_good; auto. }
     pose proof (pop_frame_good _ Hs5) as Hs6.
     destruct items2; [destruct els as [eb|]; [eapply Hex; eauto|inversion H; subst; auto]|inversion H; subst; auto].
-  - apply bind_ok in H as ([v s1] & E1 & H). destruct (Hev _ _ _ _ Hs Ht E1) as [Hv Hs1]. inversion H; subst. now apply store_good.
+  - apply bind_ok in H as ([v s1] & E1 & H). destruct (Hev _ _ _ _ Hs Ht E1) as [Hv Hs1].
+    apply bind_ok in H as (s2 & E2 & H). inversion H; subst. eapply bind_target_good; eauto.
   - apply andb_true_iff in Ht as [Hbody Hflt]. apply bind_ok in H as ([[sg0 txt] s1] & E1 & H).
     apply bind_ok in E1 as ([sg1 s1'] & E1 & E1'). inversion E1'; subst. clear E1'.
     pose proof (Hex _ _ _ _ (with_out_nil_good _ Hs) Hbody E1) as Hs1.
@@ -668,7 +755,7 @@ Proof.
     destruct (enclose c s1 (macro_closure [] [] body)) as [s2 cl] eqn:Ee. pose proof (enclose_good _ _ _ _ _ Hroot Hs1 Ee) as Hs2.
     destruct (lookup c s2 mn) as [fv s3] eqn:El. destruct (lookup_good _ _ _ _ _ Hroot Hs2 El) as [Hs3 Hfv].
     destruct fv as [fv|]; [|discriminate]. specialize (Hfv _ eq_refl).
-    destruct fv as [| | |b|z|sf t|l|mc mcl|i n|g]; try discriminate.
+    destruct fv as [| | |b|z|sf t|l|kvs|mc mcl|i n|g]; try discriminate.
     apply bind_ok in H as ([v s4] & E2 & H). inversion H; subst.
     assert (Hkw : good_binds [(N_caller, VMacro (mkMacro N_caller [] [] body (uses_caller [] [] body)) cl)] = true).
     { unfold good_binds. cbn [forallb snd good_value]. unfold macro_ok. cbn [m_defaults m_body forallb]. now rewrite Hbody. }
@@ -718,10 +805,16 @@ Qed.
 (* plain data is a good context *)
 Lemma data_good : forall v, data_value v = true -> good_value v = true.
 Proof.
-  fix IH 1. intros v. destruct v as [| | |b|z|sf t|l|mc cl|i n|g]; cbn [data_value good_value]; auto; try discriminate.
-  - destruct sf; [discriminate|auto].
-  - induction l as [|a r IHl]; cbn [forallb]; auto. intros H. apply andb_true_iff in H as [H1 H2].
-    rewrite (IH a H1). cbn [andb]. auto.
+  apply (value_ind_nested (fun v => data_value v = true -> good_value v = true)); try (intros; reflexivity); try discriminate.
+  - intros sf t. destruct sf; [discriminate|reflexivity].
+  - intros l Hl. change (forallb data_value l = true -> forallb good_value l = true).
+    induction Hl as [|a r Ha Hr IHl]; cbn [forallb]; auto. intros H. apply andb_true_iff in H as [H1 H2].
+    rewrite (Ha H1). cbn [andb]. auto.
+  - intros m Hm.
+    change (forallb (fun p => data_value (fst p) && data_value (snd p)) m = true ->
+            forallb (fun p => good_value (fst p) && good_value (snd p)) m = true).
+    induction Hm as [|p r [Hk Hx] Hr IHm]; cbn [forallb]; auto. intros H. apply andb_true_iff in H as [H1 H2].
+    apply andb_true_iff in H1 as [H1k H1x]. rewrite (Hk H1k), (Hx H1x). cbn [andb]. auto.
 Qed.
 
 Lemma data_binds_good (l : list (name * value)) : forallb (fun p => data_value (snd p)) l = true -> good_binds l = true.
@@ -791,7 +884,7 @@ Proof.
   intros H. simpl in H. apply bind_ok in H as ([vs s1] & E1 & H).
   destruct (enclose c s1 (macro_closure [] [] body)) as [s2 cl] eqn:Ee.
   destruct (lookup c s2 mn) as [fv s3] eqn:El. destruct fv as [fv|]; [|discriminate].
-  destruct fv as [| | |b|z|sf t|l|mc mcl|i n|g]; try discriminate.
+  destruct fv as [| | |b|z|sf t|l|kvs|mc mcl|i n|g]; try discriminate.
   apply bind_ok in H as ([v s4] & E2 & H). inversion H; subst.
   exists s3, mc, mcl, vs, [(N_caller, VMacro (mkMacro N_caller [] [] body (uses_caller [] [] body)) cl)], v, s4.
   repeat split; auto.
